@@ -215,11 +215,13 @@ func c12Run(c *Ctx, ecs bool) {
 		mode = "ecs-on"
 	}
 	ups := []string{"udp", "pipe", "dohs", "doq"}
-	b, err := NewBed(c, mode, BedOpts{Upstreams: ups, ECS: ecs, MemSize: 8 << 20, ClientAddrHeader: "X-Client-Addr", KeepRaw: true})
+	b, err := NewBed(c, mode, BedOpts{Env: map[string]string{"VERIF_POINTS": "prefetch.start=sleep(2ms,100.0%)"}, Upstreams: append([]string{"tcp"}, ups...), ECS: ecs, MemSize: 8 << 20, ClientAddrHeader: "X-Client-Addr", KeepRaw: true})
 	if err != nil {
 		c.startFailure(err, mode)
 		return
 	}
+	refreshDone := make(chan struct{})
+	go func() { defer close(refreshDone); c12Refresh(c, b, ecs, mode) }() // mostly waiting: overlaps with the probes
 	nProbes := c.N(1600, 24000)
 	parallelFor(nProbes, 16, func() bool { return c.ViolationCount() >= 10 || !b.Proxy.Alive() }, func(i int) {
 		r := gen.New(c.Seed, "c12/"+mode, i)
@@ -358,6 +360,10 @@ func c12Run(c *Ctx, ecs bool) {
 			c.Ev.Sample(map[string]any{"mode": mode, "listener": listener, "client": fmt.Sprint(addr), "name": name, "upstream_queries": seen})
 		}
 	})
+	<-refreshDone
+	if b.Proxy.Alive() && c.ViolationCount() < 10 {
+		c12Failing(c, b, mode)
+	}
 	// response sizes in 1-byte steps around the client's UDP size: the OPT record must survive truncation
 	if ecs && b.Proxy.Alive() && c.ViolationCount() < 10 {
 		nSweep := 4 * 256
@@ -412,4 +418,115 @@ func famOf(a netip.Addr) string {
 		return "v4mapped"
 	}
 	return "v6"
+}
+
+
+// c12Refresh: many clients (one address each) repeat their own 6 s question when the entry is in
+// the last quarter of its lifetime; every hit starts a background refresh. Each upstream query for
+// a client's name - the refresh included - must carry that client's prefix (or no ECS when off).
+func c12Refresh(c *Ctx, b *Bed, ecs bool, mode string) {
+	n := c.N(48, 160)
+	type cl struct {
+		ip, name string
+		addr     netip.Addr
+	}
+	cls := make([]cl, n)
+	for i := range cls {
+		ip := fmt.Sprintf("127.%d.%d.%d", 20+i%200, (i*7)%256, 1+i%250)
+		cls[i] = cl{ip: ip, name: fmt.Sprintf("ok-n2-ttl6-rf%dx%d.pipe.test.", i, c.Seed), addr: netip.MustParseAddr(ip)}
+	}
+	listeners := []string{"udp", "tcp", "gnet"}
+	ask := func(i, round int) {
+		q := new(dns.Msg)
+		q.Id = uint16(i*3 + round)
+		q.RecursionDesired = true
+		q.Question = []dns.Question{{Name: cls[i].name, Qtype: dns.TypeA, Qclass: dns.ClassINET}}
+		wire, _ := q.Pack()
+		b.Exchange(listeners[(i+round)%3], wire, xOpts{LocalIP: cls[i].ip, Timeout: 4 * time.Second})
+	}
+	parallelFor(n, n, nil, func(i int) { ask(i, 0) })
+	time.Sleep(4750 * time.Millisecond) // 6 s entries: the last quarter starts at 4.5 s, 1.25 s remain
+	for round := 1; round <= 2; round++ {
+		parallelFor(n, n, nil, func(i int) { ask(i, round) })
+	}
+	time.Sleep(500 * time.Millisecond)
+	byName := map[string]int{}
+	for i := range cls {
+		byName[strings.ToLower(cls[i].name)] = i
+	}
+	refreshes := 0
+	perName := map[int]int{}
+	for _, ql := range b.Up["pipe"].Log() {
+		i, ok := byName[strings.ToLower(ql.Name)]
+		if !ok {
+			continue
+		}
+		perName[i]++
+		if perName[i] > 1 {
+			refreshes++
+		}
+		c.Ev.Eval(1)
+		probe := c12Probe{Listener: "udp/tcp/gnet", Name: cls[i].name, ClientAddr: cls[i].ip, QueryHex: hex.EncodeToString(ql.Raw)}
+		raw := c12RawECS(ql.Raw)
+		kind := "first-fetch"
+		if perName[i] > 1 {
+			kind = "refresh"
+		}
+		switch {
+		case !ecs && len(raw) > 0:
+			c.Violation("ecs-when-not-allowed:"+mode+":"+kind, "upstream query ("+kind+") carries a client-subnet option although ECS is off", probe)
+			return
+		case ecs && len(raw) != 1:
+			c.Violation("ecs-missing:"+mode+":"+kind, fmt.Sprintf("upstream query (%s) for the question of client %s carries %d client-subnet options, expected exactly one", kind, cls[i].ip, len(raw)), probe)
+			return
+		case ecs && !bytes.Equal(raw[0], c12RefECS(cls[i].addr)):
+			c.Violation("ecs-content:"+mode+":"+kind, fmt.Sprintf("upstream query (%s) for the question only client %s asks carries client-subnet option %x, reference %x", kind, cls[i].ip, raw[0], c12RefECS(cls[i].addr)), probe)
+			return
+		}
+		c.Ev.Distinct(mode, "refresh-phase", kind)
+	}
+	c.Ev.Count(mode+"_refresh_queries_checked", int64(refreshes))
+	if refreshes == 0 {
+		c.Inconclusive("refresh phase: no background refresh reached the upstream")
+	}
+}
+
+// c12Failing: the exchange with the upstream fails (connection closed, reset, garbage) or the
+// upstream itself answers SERVFAIL / REFUSED: the locally made response obeys the same OPT rules.
+func c12Failing(c *Ctx, b *Bed, mode string) {
+	kinds := []string{"close", "rst", "garbage", "rc2", "rc5", "nx"}
+	n := c.N(60, 600)
+	parallelFor(n, 6, func() bool { return c.ViolationCount() >= 10 || !b.Proxy.Alive() }, func(i int) {
+		r := gen.New(c.Seed, "c12fail/"+mode, i)
+		kind := kinds[i%len(kinds)]
+		listener := allListeners[(i/len(kinds))%len(allListeners)]
+		name := fmt.Sprintf("%s-f%dx%d.tcp.test.", kind, i, c.Seed)
+		wire, qopt := c12BuildQuery(r, name, dns.TypeA, uint16(i))
+		probe := c12Probe{Listener: listener, Name: name, QueryOpt: qopt, QueryHex: hex.EncodeToString(wire)}
+		x := b.Exchange(listener, wire, xOpts{Timeout: 9 * time.Second})
+		c.Ev.Eval(1)
+		if x.Err != nil || len(x.Resp) == 0 || (x.Status != 0 && x.Status != 200) {
+			c.Inconclusive(fmt.Sprintf("failing-upstream phase: no response on %s: %v status=%d", listener, x.Err, x.Status))
+			return
+		}
+		nOpt, opts, _, err := c12RawOPTs(x.Resp)
+		if err != nil {
+			c.Violation("undecodable-response:"+listener, "response does not decode: "+err.Error(), probe)
+			return
+		}
+		resp := new(dns.Msg)
+		resp.Unpack(x.Resp)
+		hadOpt := qopt != "none"
+		switch {
+		case !hadOpt && nOpt > 0:
+			c.Violation("opt-without-request:failing-upstream:"+kind, fmt.Sprintf("rcode %d response to a query without OPT carries %d OPT record(s) (upstream behaviour %s)", resp.Rcode, nOpt, kind), probe)
+		case hadOpt && nOpt != 1:
+			c.Violation("opt-count:failing-upstream:"+kind, fmt.Sprintf("query had an OPT record, the rcode %d response has %d (upstream behaviour %s, %s listener)", resp.Rcode, nOpt, kind, listener), probe)
+		case hadOpt && len(opts[0]) != 0:
+			c.Violation("option-relayed-to-client:failing-upstream:"+kind, fmt.Sprintf("rcode %d response OPT carries %d option(s)", resp.Rcode, len(opts[0])), probe)
+		default:
+			c.Ev.Distinct(mode, "failing-upstream", kind, listener, hadOpt, resp.Rcode)
+			c.Ev.Count(mode+"_failing_upstream_responses_checked", 1)
+		}
+	})
 }
